@@ -354,10 +354,28 @@ def gen_S(seed, klass="S"):
     if r.random() < 0.3:
         isstd = [r.randrange(0, 2) for _ in types]
         isut = [r.randrange(0, 2) if s else 0 for s in isstd]
+    dup_type = False
+    if form in ("std-only", "allyear") and klass != "S-dst0" and trans and len(types) < 250 and r.random() < 0.6:
+        # what zic -b fat writes for rules given in standard time: two types with identical offset, flag and designation
+        # that differ only in their standard/wall indicator; the last transition uses the later one, an earlier entry
+        # (when there is one of that type) the first
+        k = trans[-1][1]
+        types.append(types[k])
+        trans[-1] = (trans[-1][0], len(types) - 1)
+        if isstd is None:
+            isstd = [0 for _ in types]
+            isut = [0 for _ in types]
+        else:
+            isstd.append(0)
+            isut.append(0)
+        isstd[k], isut[k] = 0, 0
+        isstd[-1] = 1
+        isut[-1] = r.randrange(0, 2)
+        dup_type = True
     data = tzif_bytes(trans, types, abbrs, footer, version=version, v1=r.choice(["slim", "fat"]), isstd=isstd, isut=isut)
     return data, dict(form=form, footer=footer, last_year=Y0, ntrans=len(trans), version=version.decode("latin1"),
                       ntypes=len(types), nchars=len(abbrs), abbr_route=abbr_route,
-                      omitted=None if omit is None else ("dst" if omit == di else "std"), dst0=dst0)
+                      omitted=None if omit is None else ("dst" if omit == di else "std"), dst0=dst0, dup_type=dup_type)
 
 
 # ---------------------------------------------------------------------- zic (Z)
